@@ -1219,8 +1219,14 @@ class Pool:
         # but we have no way to accurately tell if it did.  So we wait for
         # _lost_worker_timeout seconds before we mark the job with
         # WorkerLostError.
+        live_pids = [w.pid for w in self._pool]
         for job in [job for job in list(self._cache.values())
                     if not job.ready() and job._worker_lost]:
+            if all(pid in live_pids for pid in job.worker_pids()):
+                # the lost worker had published its part after all: the
+                # job's unfinished parts all belong to live workers.
+                job._worker_lost = None
+                continue
             now = now or monotonic()
             lost_time, lost_ret = job._worker_lost
             if now - lost_time > job._lost_worker_timeout:
